@@ -60,6 +60,18 @@ CHECKS = {
              'the sheet code reads (stub fidelity listed in the evidence); counterexamples are replayed '
              'with real rule objects from an empty sheet through public calls (history found by search).',
         design='3 C09'),
+    'C12': dict(
+        text='Bounded symbolic model checking of the frame condition and of two-call composition on the real '
+             'code: for every parser context and every infix up to the bound, under each combination of '
+             'library-wide and parser error mode, the state vector (error mode, serializer + preferences, '
+             'profile registry, saved tokens) is proved equal before and after the call on every path, '
+             'returning or raising, and a probe battery run afterwards equals its fresh-process result; '
+             'byte input with symbolic bytes (decode failures decided by the codec model), fetchers failing '
+             'at a symbolic call index, missing files, csscombine; parser reuse. An AST tripwire checks '
+             'that the state vector covers every module-level mutable object of the current tree.',
+        note='Trusted: z3; codec model; the probe battery stands for any later call; hidden state outside '
+             'the listed vector would go unnoticed unless the tripwire reports a new module-level object.',
+        design='3 C12'),
 }
 
 NA_REASON = 'check not built yet (build in progress; DESIGN.md section 3 describes the planned harness)'
